@@ -502,7 +502,7 @@ def fuzz_payloads(rng, se, e, block, attempts, keep):
     lits, by_key = test_seeds()
     seeds = list(by_key.get(e.key, []))
     maxlen = min(e.max_len or 1024, 1400)
-    pool, declined, tried = [], [], set()
+    pool, declined, tried, both = [], [], set(), set()
 
     def offer(p):
         p = bytes(p[:maxlen])
@@ -514,6 +514,9 @@ def fuzz_payloads(rng, se, e, block, attempts, keep):
             st, _ = impl_call(canon, v)
         if st == "ok" and v is not se.UNSERIALIZABLE:
             pool.append(p)
+            st2, v2 = impl_call(ser.deserialize, block, p, pod=False)
+            if st2 == "ok" and v2 is not se.UNSERIALIZABLE and impl_call(canon, v2)[0] == "ok":
+                both.add(p)
             return True
         if len(declined) < 3 or (len(declined) < 12 and rng.random() < 0.02):
             declined.append(p)
@@ -533,6 +536,11 @@ def fuzz_payloads(rng, se, e, block, attempts, keep):
     for n in lens:
         offer(bytes(n))
         offer(bytes((7 * i + 1) & 0xff for i in range(n)))
+    # which lengths does it take at all?  (fixed-size forms that no sub-spec size adds up to)
+    for n in range(0, min(maxlen, 320) + 1):
+        if n not in lens and offer(bytes(n)):
+            lens.append(n)
+            offer(bytes((7 * i + 1) & 0xff for i in range(n)))
     for i in range(attempts):
         if len(pool) >= keep * 4:
             break
@@ -572,8 +580,11 @@ def fuzz_payloads(rng, se, e, block, attempts, keep):
     pool = sorted(set(pool), key=lambda p: (len(p), p))
     if len(pool) > keep:
         reps, seen_len = [], set()
+        if len(both) * 4 < len(pool):
+            # few payloads are also accepted in object form: those go first
+            reps = sorted(both, key=lambda p: (len(p), p))[:keep // 4]
         for p in pool:
-            if len(p) not in seen_len:
+            if len(p) not in seen_len and p not in reps:
                 seen_len.add(len(p))
                 reps.append(p)
         if len(reps) > keep // 2:
@@ -582,6 +593,108 @@ def fuzz_payloads(rng, se, e, block, attempts, keep):
         more = [rest[i] for i in sorted(rng.sample(range(len(rest)), min(len(rest), keep - len(reps))))]
         pool = sorted(reps + more, key=lambda p: (len(p), p))
     return pool, declined, len(tried)
+
+
+# ----------------------------------------------------------------------------------------
+# value-level variants: payloads the serializer itself produces from edited decoded values
+# ----------------------------------------------------------------------------------------
+
+# face sets for texture-entry style exception dictionaries: one-, two-, three- ... byte face bit fields
+# (7 faces per byte), the faces either side of the documented maximum (45) and the highest the encoding can name
+FACESETS = [(14,), (19, 20), (21,), (28,), (35,), (42,), (44,), (45,), (46,), (63,), (13, 14), (0, 14, 21),
+            (5, 44, 63), (20, 21, 22), (7,), (6, 7)]
+FLOAT_EDITS = [-0.0, 0.0]
+
+
+def _unwrap(v):
+    import lazy_object_proxy
+    return v.__wrapped__ if isinstance(v, lazy_object_proxy.Proxy) else v
+
+
+def _children(v):
+    """-> list of (key, child) of a decoded value node, [] for leaves"""
+    import hippolyzer.lib.base.datatypes as dt
+    v = _unwrap(v)
+    if isinstance(v, dict):
+        return list(v.items())
+    if isinstance(v, dt.TupleCoord):
+        return list(enumerate(tuple(v)))
+    if isinstance(v, (list, tuple)):
+        return list(enumerate(v))
+    if dataclasses.is_dataclass(v) and not isinstance(v, type):
+        return [(f.name, getattr(v, f.name)) for f in dataclasses.fields(v)]
+    if isinstance(getattr(type(v), "__fields__", None), tuple):      # other record classes (TaggedUnion)
+        return [(n, getattr(v, n)) for n in type(v).__fields__]
+    return []
+
+
+def _replace(v, path, new):
+    """copy of v with the node at `path` replaced (constructors of coordinate classes are NOT re-run on the new leaf)"""
+    import copy
+    import hippolyzer.lib.base.datatypes as dt
+    v = _unwrap(v)
+    if not path:
+        return new
+    k, rest = path[0], path[1:]
+    if isinstance(v, dict):
+        c = copy.copy(v)
+        c[k] = _replace(v[k], rest, new)
+        return c
+    if isinstance(v, dt.TupleCoord):
+        c = type(v)(*v)
+        setattr(c, type(v).__fields__[k], _replace(tuple(v)[k], rest, new))
+        return c
+    if isinstance(v, list):
+        c = list(v)
+        c[k] = _replace(v[k], rest, new)
+        return c
+    if isinstance(v, tuple):
+        items = list(v)
+        items[k] = _replace(v[k], rest, new)
+        return tuple(items) if type(v) is tuple else type(v)(*items)
+    c = copy.copy(v)
+    setattr(c, k, _replace(getattr(v, k), rest, new))
+    return c
+
+
+def value_variants(v, cap):
+    """Edited copies of a decoded value: every float leaf set to -0.0 / +0.0 (the two sides of a zero midpoint
+    of a quantised component, and the F32 negative zero), and every default+exceptions dictionary
+    ({None: default, (faces...): value}) given one more exception for each face set of FACESETS."""
+    import copy
+    floats, exdicts = [], []
+
+    def walk(node, path, depth):
+        node = _unwrap(node)
+        if depth > 8 or len(floats) + len(exdicts) > 400:
+            return
+        if isinstance(node, float):
+            floats.append(path)
+            return
+        if isinstance(node, dict) and None in node and all(k is None or (isinstance(k, tuple) and all(isinstance(i, int) for i in k)) for k in node):
+            exdicts.append(path)
+        for k, child in _children(node):
+            walk(child, path + (k,), depth + 1)
+    walk(v, (), 0)
+    out = []
+    for path in exdicts:
+        node = _unwrap(v)
+        for k in path:
+            node = dict(_children(node))[k]
+        node = _unwrap(node)
+        for fs in FACESETS:
+            if fs in node:
+                continue
+            c = copy.copy(node)
+            c[fs] = copy.deepcopy(node[None])
+            out.append(("faces%s@%s" % (list(fs), "/".join(map(str, path))), _replace(v, path, c)))
+    for path in floats:
+        for x in FLOAT_EDITS:
+            out.append(("float%r@%s" % (x, "/".join(map(str, path))), _replace(v, path, x)))
+    if len(out) > cap:
+        step = len(out) / float(cap)
+        out = [out[int(i * step)] for i in range(cap)]
+    return out
 
 
 # ----------------------------------------------------------------------------------------
@@ -718,6 +831,8 @@ def _contract_events(chk: Check, entries, quick):
     attempts = 1500 if quick else 30000
     keep = 50 if quick else 1200
     walked = set()
+    n_bases = 3 if quick else 10
+    n_variants = 260 if quick else 3000
 
     def record(e, ctx, mode, org, raw0, tz=None):
         blk = make_block(Block, e, ctx)
@@ -769,6 +884,7 @@ def _contract_events(chk: Check, entries, quick):
         else:
             per_ctx_attempts = max(200, attempts // max(1, len(ctxs)))
             per_ctx_keep = max(12, keep // max(1, len(ctxs)))
+            seeds_of_key = set(test_seeds()[1].get(e.key, []))
             for ctx in ctxs:
                 blk = make_block(Block, e, ctx)
                 pool, declined, tried = fuzz_payloads(rng, se, e, blk, per_ctx_attempts, per_ctx_keep)
@@ -788,6 +904,33 @@ def _contract_events(chk: Check, entries, quick):
                 for p in selfmade[:per_ctx_keep]:
                     for mode in ("pod", "obj"):
                         record(e, ctx, mode, "self", p)
+                # ... and so must what it produces from edited values: signed zeros in every float component,
+                # exceptions for high faces in every default+exceptions dictionary
+                bases, seen_len = [], set()
+                for p in sorted(pool, key=lambda q: (q not in seeds_of_key, len(q))):
+                    if p and len(p) not in seen_len:
+                        seen_len.add(len(p))
+                        bases.append(p)
+                bases = bases[:n_bases]
+                made = set()
+                for p in bases:
+                    for mode in ("pod", "obj"):
+                        st0, v = impl_call(e.ser.deserialize, blk, p, pod=(mode == "pod"))
+                        if st0 != "ok" or v is se.UNSERIALIZABLE:
+                            continue
+                        st0, variants = impl_call(value_variants, v, n_variants)
+                        if st0 != "ok":
+                            continue
+                        for label, v2 in variants:
+                            st1, raw = impl_call(e.ser.serialize, blk, v2)
+                            if st1 != "ok" or not isinstance(raw, (bytes, bytearray)) or (mode, bytes(raw)) in made:
+                                continue
+                            if e.max_len and len(raw) > e.max_len:
+                                continue
+                            made.add((mode, bytes(raw)))
+                            record(e, ctx, mode, "self", bytes(raw))
+                            extras[-1]["edit"] = label
+                            st["edited"] += 1
     return events, extras, stats
 
 
@@ -820,6 +963,9 @@ def _report_contract_fail(chk, law, ev, ex, counts):
         feat["delta"] = ex["raw1"] - ex["raw0"] if law == "C.byte-exact" else ex.get("raw2", 0) - ex["raw1"]
     if "t0" in ex:
         detail["v0"] = _short(ex["t0"])
+    if ex.get("edit"):
+        detail["produced_from"] = "decoded value edited: " + ex["edit"]
+        feat["edit"] = ex["edit"].split("@")[0].split("[")[0].rstrip("-0.")
     ck = (e.name, law, ex["mode"], ex.get("tz"), feat.get("path"), feat.get("delta"), feat.get("exc"))
     counts[ck] += 1
     if counts[ck] <= MAX_PER_CLASS:
